@@ -9,8 +9,9 @@ parts not summing to the amount return None), JOIN_TICKETS succeeds exactly when
 tickets are never duplicated.
 
 The mini-interpreter `Impl.Tickets.run` mirrors how pytezos executes TICKET / READ_TICKET / SPLIT_TICKET / JOIN_TICKETS /
-PAIR / UNPAIR / CAR / CDR / SOME / NONE / IF_NONE / CONS / NIL / ITER / MAP / DUP / DUP n / SWAP / DIG / DUG / DROP / DIP /
-DIP n / PUSH / EMPTY_MAP / EMPTY_BIG_MAP / GET / GET_AND_UPDATE / UPDATE / FAILWITH and sequences, including every
+PAIR / UNPAIR / CAR / CDR / SOME / NONE / IF_NONE / LEFT / RIGHT / IF_LEFT / CONS / NIL / ITER / MAP / DUP / DUP n / SWAP /
+DIG / DUG / DROP / DIP / DIP n / PUSH (incl. set and map literals) / EMPTY_MAP / EMPTY_BIG_MAP / EMPTY_SET / GET /
+GET_AND_UPDATE / UPDATE (maps, big_maps, sets) / MEM / LAMBDA / EXEC / APPLY / FAILWITH and sequences, including every
 dynamic check (`is_duplicable` on the runtime class, the `dup` argument of `get`, `is_pushable`, `is_comparable`,
 `assert_type_equal`); `cfg` is the shape of the code under test as read by the translator on this run.
 
@@ -32,7 +33,9 @@ typed start stack.  Type preservation (`Proofs/C20Ty*.lean`, induction on the ev
 stores a value that has not the map's declared value type, so the flag is still true at the end and the dynamic-check
 proof applies; no ghost field occurs in the statement.  The checker accepts MAP only with a body that gives back the
 element type it received: pytezos returns the source collection unchanged when it is empty (open finding of C01 / C02),
-so after a type-changing MAP the class of the result is not the static type (`typed_map_rule_is_restricted`). -/
+so after a type-changing MAP the class of the result is not the static type (`typed_map_rule_is_restricted`).  The
+checker does not cover LAMBDA / EXEC / APPLY (it rejects them: typing a lambda VALUE needs the checker inside the value
+typing); programs with lambdas are covered by `conservation_partial`. -/
 namespace C20
 open Impl.Tickets
 
@@ -307,6 +310,42 @@ example : outTickets (run cfg 200 (mint 5 "a" ++
        .none (.ticket .string), .push .nat (.atom (.nat 1)), .getAndUpdate]) init)
     = some (true, [("KT1", .atom (.str "a"), 5)]) := by decide +kernel
 
+-- or-types: a ticket on the right of an `or` comes back through IF_LEFT; DUP of the sum is refused
+example : outTickets (run cfg 200 (mint 5 "a" ++ [.right .nat, .ifLeft [.failwith] []]) init)
+    = some (true, [("KT1", .atom (.str "a"), 5)]) := by decide +kernel
+example : outTickets (run cfg 200 (mint 5 "a" ++ [.right .nat, .dup]) init) = none := by decide +kernel
+example : outTickets (run cfg 200 [.push .nat (.atom (.nat 1)), .left (.ticket .string), .dup] init) = none := by decide +kernel
+-- option (pair nat (ticket string)): the ticket sits at the second type-argument position; DUP refused, CDR gives it back
+example : outTickets (run cfg 200 (mint 5 "a" ++ [.push .nat (.atom (.nat 7)), .pair, .some, .dup]) init) = none := by decide +kernel
+example : outTickets (run cfg 200 (mint 5 "a" ++ [.push .nat (.atom (.nat 7)), .pair, .some, .ifNone [.failwith] [], .cdr]) init)
+    = some (true, [("KT1", .atom (.str "a"), 5)]) := by decide +kernel
+-- lambdas: identity on a ticket; a lambda that tries to copy its argument fails; a lambda may mint; code is duplicable
+example : outTickets (run cfg 200 (mint 5 "a" ++ [.lambda (.ticket .string) (.ticket .string) [], .dup, .drop, .swap, .exec]) init)
+    = some (true, [("KT1", .atom (.str "a"), 5)]) := by decide +kernel
+example : outTickets (run cfg 200 (mint 5 "a" ++
+      [.lambda (.ticket .string) (.pair (.ticket .string) (.ticket .string)) [.dup, .pair], .swap, .exec]) init) = none := by
+  decide +kernel
+example : outTickets (run cfg 200
+      [.lambda .nat (.option (.ticket .string)) [.push .string (.atom (.str "a")), .ticket], .push .nat (.atom (.nat 4)), .exec] init)
+    = some (true, [("KT1", .atom (.str "a"), 4)]) := by decide +kernel
+-- APPLY on a ticket captures it into code for good: the applied lambda can be copied, but running it is refused (PUSH of a
+-- ticket type), so the 5 never come back — let alone twice
+example : outTickets (run cfg 200 (mint 5 "a" ++
+      [.lambda (.pair (.ticket .string) .nat) (.ticket .string) [.car], .swap, .apply, .dup]) init) = some (true, []) := by decide +kernel
+example : outTickets (run cfg 200 (mint 5 "a" ++
+      [.lambda (.pair (.ticket .string) .nat) (.ticket .string) [.car], .swap, .apply, .push .nat (.atom (.nat 1)), .exec]) init) = none := by
+  decide +kernel
+-- sets and map literals live next to tickets: a pair (map literal, ticket) is not duplicable, the literal alone is
+example : outTickets (run cfg 200 (mint 5 "a" ++
+      [.push (.map .nat .string) (.map false .nat .string [.nat 1] [.atom (.str "x")] []), .dup, .drop, .pair, .dup]) init) = none := by
+  decide +kernel
+example : outTickets (run cfg 200
+      [.push (.map .nat .string) (.map false .nat .string [.nat 2, .nat 1] [.atom (.str "x"), .atom (.str "y")] [])] init) = none := by
+  decide +kernel
+example : outTickets (run cfg 200 (mint 5 "a" ++
+      [.emptySet .nat, .push .bool (.atom (.bool true)), .push .nat (.atom (.nat 3)), .update, .dup, .push .nat (.atom (.nat 3)), .mem]) init)
+    = some (true, [("KT1", .atom (.str "a"), 5)]) := by decide +kernel
+
 /-- why the guard is there: this ILL-TYPED program (a ticket stored into a `map nat nat`) runs to the end in the mirror —
 as it does in pytezos — with TWO tickets of 5 although 5 were minted; the ghost flag is false at the end -/
 theorem conservation_needs_typed_stores :
@@ -339,6 +378,11 @@ example : wellTyped cfg (mintT 5 "a" ++ [.nil (.ticket .string), .swap, .cons, .
   decide +kernel
 -- a start stack that already holds a ticket
 example : wellTyped cfg [.readTicket, .drop] [.ticket (.ticket .string) "KT1" (.atom (.str "a")) 7] = true := by decide +kernel
+-- or-types, sets and literals are covered by the checker
+example : wellTyped cfg (mintT 5 "a" ++ [.right .nat, .ifLeft fail [], .readTicket, .drop,
+      .emptySet .nat, .push .bool (.atom (.bool true)), .push .nat (.atom (.nat 3)), .update, .push .nat (.atom (.nat 3)), .mem]) [] = true := by
+  decide +kernel
+example : wellTyped cfg (mintT 5 "a" ++ [.right .nat, .dup]) [] = false := by decide +kernel
 -- rejected: DUP of a ticket, DUP of a big_map of tickets, GET on a map of tickets are fine for the checker's map rules
 -- but DUP is refused statically; the ill-typed store of `conservation_needs_typed_stores` is refused as well
 example : wellTyped cfg (mintT 5 "a" ++ [.dup]) [] = false := by decide +kernel
